@@ -5,6 +5,7 @@ package main
 // every timestamp stored anywhere in it, with the set of times it may legitimately come from.
 
 import (
+	"strconv"
 	"encoding/hex"
 	"encoding/json"
 	"fmt"
@@ -24,6 +25,7 @@ import (
 type reproDesc struct {
 	YAML  string      `json:"yaml"`
 	Files []extraFile `json:"files"`
+	SDE   string      `json:"source_date_epoch,omitempty"` // the package mtime comes from the environment, not the document
 }
 
 type c07Stats struct {
@@ -165,7 +167,13 @@ func runC07Case(w *caseWriter, id string, d reproDesc, first map[string]string, 
 		st.cases++
 		return
 	}
-	w.line("rmtime %d %s", cfg.MTime.Unix(), xs(cfg.RPM.BuildHost))
+	pkgMTime := cfg.MTime.Unix()
+	if d.SDE != "" {
+		os.Setenv("SOURCE_DATE_EPOCH", d.SDE)
+		defer os.Unsetenv("SOURCE_DATE_EPOCH")
+		pkgMTime, _ = strconv.ParseInt(d.SDE, 10, 64)
+	}
+	w.line("rmtime %d %s", pkgMTime, xs(cfg.RPM.BuildHost))
 	for _, t := range declaredTimes(cfg) {
 		w.line("rallow declared %d", t)
 	}
@@ -177,6 +185,9 @@ func runC07Case(w *caseWriter, id string, d reproDesc, first map[string]string, 
 		raw, a := buildOnce(d.YAML, f)
 		_, b := buildOnce(d.YAML, f)
 		env := childEnvs[(idx+fi)%len(childEnvs)]
+		if d.SDE != "" {
+			env = append(append([]string{}, env...), "SOURCE_DATE_EPOCH="+d.SDE)
+		}
 		c := childBuild(d.YAML, f, env)
 		_, e := buildOnce(absDoc, f)
 		late := "-"
@@ -231,7 +242,11 @@ func reproConfig(g *pkgGen, i int) genOut {
 	// a changelog (its dates are rendered as text inside the deb and the rpm)
 	if i%2 == 0 && c.Changelog == "" {
 		c.Changelog = "changelog.yaml"
-		gen.files = append(gen.files, extraFile{Path: "changelog.yaml", Hex: hex.EncodeToString([]byte(changelogYAML)), Mode: 0o644, MTime: 1650000100})
+		body := changelogYAML
+		if i%4 == 2 {
+			body = changelogYAMLUndated // an entry without a date: nothing may stand in for it but a constant
+		}
+		gen.files = append(gen.files, extraFile{Path: "changelog.yaml", Hex: hex.EncodeToString([]byte(body)), Mode: 0o644, MTime: 1650000100})
 	}
 	// a package mtime in the future (a release date, a far SOURCE_DATE_EPOCH) is an mtime like any other
 	if i%4 == 2 {
@@ -299,13 +314,22 @@ func cmdC07(tier string, seed int64, out, statsOut, replay string) {
 	for i := 0; i < n; i++ {
 		gen := reproConfig(g, i)
 		d := reproDesc{YAML: marshalConfig(&gen.cfg), Files: gen.files}
+		// every fourth configuration takes its package mtime from SOURCE_DATE_EPOCH: the epoch itself, one second, a usual value
+		if i%4 == 0 {
+			gen.cfg.MTime = time.Time{}
+			d = reproDesc{YAML: marshalConfig(&gen.cfg), Files: gen.files, SDE: []string{"0", "1700000123", "1"}[(i/4)%3]}
+		}
 		descs = append(descs, d)
 		// first pass: the builds every later build of this configuration is compared with
 		writeExtraFiles(d.Files)
 		first := map[string]string{}
+		if d.SDE != "" {
+			os.Setenv("SOURCE_DATE_EPOCH", d.SDE)
+		}
 		for _, f := range allFormats {
 			_, first[f] = buildOnce(d.YAML, f)
 		}
+		os.Unsetenv("SOURCE_DATE_EPOCH")
 		removeExtraFiles(d.Files)
 		firsts = append(firsts, first)
 	}
